@@ -148,13 +148,13 @@ def run(ck):
     # ---- independent gradients: for the L2 and product kernels (exponents 1, 1.4 and EXACTLY 2) the matrix fit_M computes is compared with the normalised sum of outer products
     #      of the gradients of the CURRENT predictor obtained by automatic differentiation (float64) of the documented closed form, each point's own term left out —
     #      nothing of the library's gradient code is used
-    for i in range(ck.n(6, 24)):
-        kern = ['l2', 'l1'][i % 2]; qi = [2.0, 1.0, 1.4, 2][(i // 2) % 4]; diag_i = bool((i // 3) % 2); nout_i = [1, 2][i % 2]
+    for i in range(ck.n(9, 36)):
+        kern = ['l2', 'l1', 'lpq'][i % 3]; qi = [2.0, 1.0, 1.4, 2][(i // 2) % 4]; diag_i = bool((i // 3) % 2); nout_i = [1, 2, 3][i % 3] if i % 3 == 2 else [1, 2][i % 2]      # lpq: norm p = 2 (the Euclidean norm through the p-norm code path), 3 outputs
         n_i, d_i = 12, 3
         Xi = rng.standard_normal((n_i, d_i)); Yi = rng.standard_normal((n_i, nout_i))
         desci = dict(kind='independent-gradient', i=i, kernel=kern, exponent=qi, diag=diag_i, nout=nout_i, n=n_i, d=d_i, seed=ck.seed)
         xr.seed_all(1470 + i + ck.seed)
-        mi = xr.RealRFM(kernel=kern, iters=1, bandwidth=2.5, exponent=qi, device='cpu', diag=diag_i, verbose=False, tuning_metric='mse')
+        mi = xr.RealRFM(kernel=kern, iters=1, bandwidth=2.5, exponent=qi, device='cpu', diag=diag_i, verbose=False, tuning_metric='mse', **(dict(norm_p=2.0) if kern == 'lpq' else {}))
         try:
             with xr.quiet():
                 mi.fit((T(Xi), T(Yi)), (T(Xi[:5]), T(Yi[:5])), iters=1, reg=1e-2, verbose=False, return_best_params=False)
@@ -172,7 +172,7 @@ def run(ck):
             keep = [j for j in range(n_i) if j != k and float((C[j] - C[k]).abs().max()) > 0]
             x = C[k].clone().requires_grad_(True)
             U = tr(x[None, :] - C[keep])
-            if kern == 'l2':
+            if kern in ('l2', 'lpq'):
                 Kv = torch.exp(-(U.pow(2).sum(1).sqrt() ** q_) / Lb ** q_)
             else:
                 Kv = torch.exp(-(U.abs() ** q_).sum(1) / Lb ** q_)
